@@ -1,0 +1,97 @@
+//go:build verif
+
+package certmagic
+
+import (
+	"context"
+	"sort"
+	"time"
+
+	"github.com/mholt/acmez/v3/acme"
+)
+
+// Verification hooks (build tag "verif" only) for the lock-discipline and issuance checks:
+// snapshot functions and thin exported wrappers. No existing code is changed.
+
+// VerifLocksHeldCount returns the size of the process-level record of held storage locks
+// (the package-level locks map that CleanUpOwnLocks would release).
+func VerifLocksHeldCount() int {
+	locksMu.Lock()
+	defer locksMu.Unlock()
+	return len(locks)
+}
+
+// VerifLocksHeldNames returns the keys of the process-level record of held locks, sorted.
+func VerifLocksHeldNames() []string {
+	locksMu.Lock()
+	defer locksMu.Unlock()
+	names := make([]string, 0, len(locks))
+	for k := range locks {
+		names = append(names, k)
+	}
+	sort.Strings(names)
+	return names
+}
+
+// VerifLocksSetRetryIntervals replaces the back-off table of doWithRetry and returns a function
+// that restores the previous one. Only to be called while no retry loop is running.
+func VerifLocksSetRetryIntervals(iv []time.Duration) (restore func()) {
+	old := retryIntervals
+	retryIntervals = iv
+	return func() { retryIntervals = old }
+}
+
+// VerifLocksUpdateARI exposes Config.updateARI.
+func VerifLocksUpdateARI(ctx context.Context, cfg *Config, cert Certificate) (Certificate, bool, error) {
+	return cfg.updateARI(ctx, cert, cfg.Logger)
+}
+
+// VerifLocksIssueLockKey exposes Config.lockKey for the certificate-issuance operation.
+func VerifLocksIssueLockKey(cfg *Config, name string) string { return cfg.lockKey(certIssueLockOp, name) }
+
+// VerifLocksNormalizedName exposes normalizedName (what ManageSync/ManageAsync turn a name into).
+func VerifLocksNormalizedName(name string) string { return normalizedName(name) }
+
+// VerifLocksJobCounts returns the number of active workers and queued jobs of the background job manager.
+func VerifLocksJobCounts() (active, queued int) {
+	jm.mu.Lock()
+	defer jm.mu.Unlock()
+	return jm.activeWorkers, len(jm.queue)
+}
+
+// VerifLocksNewACMEClientWithAccount runs ACMEIssuer.newACMEClientWithAccount (the account
+// look-up / registration under the register_acme_account lock) and returns the account it
+// settled on.
+func VerifLocksNewACMEClientWithAccount(ctx context.Context, iss *ACMEIssuer, useTestCA, interactive bool) (acme.Account, error) {
+	c, err := iss.newACMEClientWithAccount(ctx, useTestCA, interactive)
+	if err != nil {
+		return acme.Account{}, err
+	}
+	return c.account, nil
+}
+
+// VerifLocksAccountRegLockKey exposes accountRegLockKey for an account with the given e-mail address.
+func VerifLocksAccountRegLockKey(email string) string {
+	var acct acme.Account
+	if email != "" {
+		acct.Contact = []string{"mailto:" + email}
+	}
+	return accountRegLockKey(acct)
+}
+
+// VerifLocksAccountStorageKeys returns the storage keys of the registration and the private key of
+// the account (ca, email).
+func VerifLocksAccountStorageKeys(iss *ACMEIssuer, ca, email string) (reg, key string) {
+	return iss.storageKeyUserReg(ca, email), iss.storageKeyUserPrivateKey(ca, email)
+}
+
+// VerifLocksSetEmail sets the issuer's effective e-mail address the way setEmail leaves it, without
+// prompting and without touching the process-wide discovered address.
+func VerifLocksSetEmail(iss *ACMEIssuer, email string) {
+	iss.mu.Lock()
+	iss.email = email
+	iss.mu.Unlock()
+}
+
+// VerifLocksFileLockPath exposes FileStorage.lockFilename (the lock file a lock name maps to).
+func VerifLocksFileLockPath(s *FileStorage, name string) string { return s.lockFilename(name) }
